@@ -99,6 +99,9 @@ STATEMENTS = [
     (['print(1); print(2)'], ['1', '2']), (['@dec', 'def g():', '    pass'], None), (['f(', '  3)'], ['3']),
     (['z = (1 +', '     2)'], None), (['@dec', 'async def h():', '    pass'], None), (['@dec', '@dec', 'class C:', '    pass'], None),
     (['async def k():', '    return 1'], None),
+    # triple-quoted strings that hold quote characters of their own kind, also doubled and directly in front of the closing quotes
+    (["t = '''def f(sep=''): pass'''"], None), (["u = '''first", "  sep='' end'''"], None), (['v = """say ""hi"" now"""'], None),
+    (["w = '''it's", "'' and ''", "done'''"], None), (["print('''a''b''')"], ["a''b"]),
 ]
 
 
